@@ -5,6 +5,9 @@ verus! {
 //@include prelude/float.rs
 //@include prelude/rng.rs
 
+// loops are verified in the context of their function (facts about values bound before a loop need no restating in
+// its invariant: hoisting a sub-expression out of a loop must not break the proof)
+#[verifier::loop_isolation(false)]
 pub mod unit_mh {
     use vstd::prelude::*;
     use core::marker::PhantomData;
@@ -188,8 +191,8 @@ pub mod unit_mh {
         //@body id=mh_step file=src/metropolis_hastings.rs impl_self=MHMarkovChain impl_trait=MarkovChain name=step props=C01,C14
         //@sig fn step (& mut self) -> & Vec < T >
         //@rules
-        //@anchor snap scope=fn pos=after match="^let proposed :"
-        //@| let ghost y = proposed@;
+        //@anchor snap scope=fn pos=after match="^let \\w+ : Vec < T > = self \\. proposal \\. sample"
+        //@| let ghost y = $lhs@;
         //@anchor wit scope=fn pos=end
         //@| proof { assert(Q::sample_rel(old(self).proposal, old(self).current_state@, self.proposal, y)); } // [C01.accept_iff]
         //@end
